@@ -74,7 +74,7 @@ func (x *hist) genesis(over map[int]sinfo) {
 		for i := range slExp.SigningInfos {
 			if slExp.SigningInfos[i].Address == ca {
 				in := &slExp.SigningInfos[i].ValidatorSigningInfo
-				in.StartHeight, in.InactiveUntil = o.Start, time.Unix(o.Until, 0).UTC()
+				in.StartHeight, in.InactiveUntil = o.Start, time.Unix(0, o.Until).UTC()
 				in.MischanceConfidence, in.Mischance, in.LastPresentBlock = o.Conf, o.Misch, o.Last
 				in.MissedBlocksCounter, in.ProducedBlocksCounter = o.Missed, o.Produced
 				found = true
@@ -113,7 +113,7 @@ func (x *hist) genesis(over map[int]sinfo) {
 	w2 := *w
 	w2.app, w2.sk, w2.slk = app2, app2.CustomStakingKeeper, app2.CustomSlashingKeeper
 	x.w = &w2
-	c, _ := hx.Ctx(app2, x.h, x.t).CacheContext()
+	c, _ := hx.Ctx(app2, x.h, x.t/1e9).CacheContext()
 	x.ctx = c
 	setProps(app2, c, x.cur)
 	var ju [][2]int64
